@@ -78,12 +78,21 @@ func (c *checker) checkInner(gen string, zctx *zed.Context, vals []zed.Value, mo
 		}
 		res.Distinctly(strings.Join(ts, " ; "))
 	}
+	// everything that describes the input is taken BEFORE the operator runs:
+	// the operator must not change the input values or their (interned) types
+	inFmt := fmtVals(vals[:min(len(vals), 40)])
+	snap := snapshotInputs(vals)
+	var coqIns []string
+	coqInsOK := false
+	if model && len(c.cases) < c.maxModel {
+		coqIns, coqInsOK = coqInputs(vals)
+	}
 	replay := func(mem int) map[string]any {
 		r := map[string]any{"query": "fuse", "fuse.MemMaxBytes": mem, "generator": gen}
 		if len(vals) <= 40 {
-			r["input_zson"] = fmtVals(vals)
+			r["input_zson"] = inFmt
 		} else {
-			r["input_zson_head"] = fmtVals(vals[:40])
+			r["input_zson_head"] = inFmt
 			r["input_len"] = len(vals)
 		}
 		return r
@@ -91,7 +100,14 @@ func (c *checker) checkInner(gen string, zctx *zed.Context, vals []zed.Value, mo
 	fail := func(sig, detail, expected, observed string, mem int) {
 		res.Fail(Failure{Kind: "oracle", Sig: sig, Detail: detail, Replay: replay(mem), Expected: expected, Observed: observed})
 	}
-	inText := strings.Join(head(fmtVals(vals), 8), " ")
+	inText := strings.Join(head(inFmt, 8), " ")
+	// ORACLE 0 (runs last, on every exit path): the inputs are what they were
+	defer func() {
+		if i, what := snap.diff(vals); i >= 0 {
+			fail("input-mutated", fmt.Sprintf("fuse over %s: the operator changed its input: %s", inText, what),
+				"input values and the types registered in the zed.Context are only read", what, defaultMemMax)
+		}
+	}()
 
 	// pre-flight on the synchronous Fuser API: panics are caught here and the
 	// operator (which would die in its own goroutine) is not run on this input
@@ -106,11 +122,31 @@ func (c *checker) checkInner(gen string, zctx *zed.Context, vals []zed.Value, mo
 			res.Fail(Failure{Kind: kind, Sig: "fuser-error", Detail: fmt.Sprintf("fuse.Fuser (memMaxBytes=%d) over %s fails: %v", mem, inText, err), Replay: replay(mem), Expected: "one output per input", Observed: err.Error()})
 			return
 		}
+		for i, v := range d {
+			if m := wellFormed(v); m != "" {
+				in := "<none>"
+				if i < len(inFmt) {
+					in = inFmt[i]
+				}
+				fail("malformed-output", fmt.Sprintf("fuse over %s (fuse.Fuser, memMaxBytes=%d): output %d (input %s) of type %s is not a well-formed value of its type: %s", inText, mem, i, in, zson.FormatType(v.Type()), m),
+					"every output decodes according to its own type", m, mem)
+				return
+			}
+		}
 		if mem == defaultMemMax {
 			direct = d
 		}
 	}
 	out, err := runValues("fuse", zctx, vals, defaultMemMax)
+	if err == nil {
+		for i, v := range out {
+			if m := wellFormed(v); m != "" {
+				fail("malformed-output", fmt.Sprintf("fuse over %s: output %d of type %s is not a well-formed value of its type: %s", inText, i, zson.FormatType(v.Type()), m),
+					"every output decodes according to its own type", m, defaultMemMax)
+				return
+			}
+		}
+	}
 	if err == nil {
 		if i, ok := canonEq(direct, out); !ok {
 			fail("op-differs-from-fuser", fmt.Sprintf("fuse over %s: the operator's output differs from fuse.Fuser's at %d", inText, i), "same values", "different", defaultMemMax)
@@ -151,21 +187,34 @@ func (c *checker) checkInner(gen string, zctx *zed.Context, vals []zed.Value, mo
 	if fused != nil {
 		if uniform && len(out) > 0 && out[0].Type() != fused {
 			cls := map[string]bool{}
-			for _, v := range vals {
-				cls[classOf(v, fused)] = true
+			expected := true
+			unexp := map[string]bool{}
+			for i, v := range vals {
+				cl := classOf(v, fused)
+				cls[cl] = true
+				if i < len(out) {
+					if m := outMode(v, out[i]); !expectedMode("uniform", cl, m) {
+						expected = false
+						unexp[cl+":"+m] = true
+					}
+				}
 			}
-			fail("agg-type:"+joinKeys(cls), fmt.Sprintf("fuse over %s: all outputs have type %s but fuse(this) reports %s", inText, zson.FormatType(out[0].Type()), zson.FormatType(fused)),
+			sig := "agg-type:" + joinKeys(cls)
+			if !expected {
+				sig = "agg-type-unexpected:" + joinKeys(unexp)
+			}
+			fail(sig, fmt.Sprintf("fuse over %s: all outputs have type %s but fuse(this) reports %s", inText, zson.FormatType(out[0].Type()), zson.FormatType(fused)),
 				zson.FormatType(fused), zson.FormatType(out[0].Type()), defaultMemMax)
 		} else if !uniform {
 			reported := map[string]bool{}
 			for i := 0; i < n; i++ {
 				if out[i].Type() != fused {
-					cl := classOf(vals[i], fused)
+					cl := failSig("uniform", classOf(vals[i], fused), outMode(vals[i], out[i]))
 					if reported[cl] {
 						continue
 					}
 					reported[cl] = true
-					fail("uniform:"+cl, fmt.Sprintf("fuse over %s: output %d is %s of type %s, not of the fused type %s", inText, i, zson.FormatValue(out[i]), zson.FormatType(out[i].Type()), zson.FormatType(fused)),
+					fail(cl, fmt.Sprintf("fuse over %s: output %d is %s of type %s, not of the fused type %s", inText, i, zson.FormatValue(out[i]), zson.FormatType(out[i].Type()), zson.FormatType(fused)),
 						zson.FormatType(fused), zson.FormatType(out[i].Type()), defaultMemMax)
 				}
 			}
@@ -180,12 +229,12 @@ func (c *checker) checkInner(gen string, zctx *zed.Context, vals []zed.Value, mo
 	reported := map[string]bool{}
 	for i := 0; i < n; i++ {
 		if d := losslessDiff(vals[i], out[i]); d != "" {
-			cl := classOf(vals[i], fused)
+			cl := failSig("lossless", classOf(vals[i], fused), outMode(vals[i], out[i]))
 			if reported[cl] {
 				continue
 			}
 			reported[cl] = true
-			fail("lossless:"+cl, fmt.Sprintf("fuse over %s: input %d %s became %s: %s", inText, i, zson.FormatValue(vals[i]), zson.FormatValue(out[i]), d),
+			fail(cl, fmt.Sprintf("fuse over %s: input %d %s became %s: %s", inText, i, inFmtAt(inFmt, i), zson.FormatValue(out[i]), d),
 				"every non-null leaf at the same path with the same primitive type and value, everything else null", d, defaultMemMax)
 		}
 	}
@@ -278,7 +327,7 @@ func (c *checker) checkInner(gen string, zctx *zed.Context, vals []zed.Value, mo
 	}
 	// correspondence case for the Coq model
 	if model && fused != nil && len(out) == len(vals) && len(c.cases) < c.maxModel {
-		if s, ok := coqCase(vals, fused, out); ok {
+		if s, ok := coqCase(coqIns, vals, fused, out); ok && coqInsOK {
 			c.cases = append(c.cases, s)
 			res.Count("model-cases")
 		} else {
@@ -450,25 +499,35 @@ func coqTV(v zed.Value) (string, bool) {
 	return "(" + t + ", " + b + ")", ok
 }
 
-func coqCase(in []zed.Value, fused zed.Type, out []zed.Value) (string, bool) {
+// coqInputs renders the inputs as Coq literals.  It is called before the
+// operator runs, so the correspondence case records the input types as they
+// were given, not as the operator may have left them.
+func coqInputs(in []zed.Value) ([]string, bool) {
 	if len(in) > 6 {
-		return "", false
+		return nil, false
 	}
-	cmpVals := true
-	var ins, outs []string
+	var ins []string
 	for _, v := range in {
 		if v.IsError() {
-			return "", false
+			return nil, false
 		}
 		s, ok := coqTV(v)
 		if !ok || len(s) > 4000 {
-			return "", false
-		}
-		if hasSet(v.Type()) {
-			cmpVals = false
+			return nil, false
 		}
 		ins = append(ins, s)
 	}
+	return ins, true
+}
+
+func coqCase(ins []string, in []zed.Value, fused zed.Type, out []zed.Value) (string, bool) {
+	cmpVals := true
+	for _, v := range in {
+		if hasSet(v.Type()) {
+			cmpVals = false
+		}
+	}
+	var outs []string
 	ft, ok := coqType(fused)
 	if !ok {
 		return "", false
@@ -493,6 +552,13 @@ func coqCase(in []zed.Value, fused zed.Type, out []zed.Value) (string, bool) {
 		plain = append(plain, fmt.Sprint(classOf(v, fused) == "plain"))
 	}
 	return fmt.Sprintf("([%s], %s, [%s], %v, [%s])", strings.Join(ins, "; "), ft, strings.Join(outs, "; "), cmpVals, strings.Join(plain, ";")), true
+}
+
+func inFmtAt(inFmt []string, i int) string {
+	if i < len(inFmt) {
+		return inFmt[i]
+	}
+	return fmt.Sprintf("<input %d>", i)
 }
 
 // ---------------------------------------------------------------- driver
